@@ -437,7 +437,27 @@ class MiniEval:
     if isinstance(e, ast.Call):
       return self.call_expr(e, env, f, depth)
     if isinstance(e, ast.JoinedStr):
-      return "<text>"
+      out = []
+      for part in e.values:
+        if isinstance(part, ast.Constant):
+          out.append(str(part.value))
+        elif isinstance(part, ast.FormattedValue):
+          v = self.ev(part.value, env, f, depth)
+          if isinstance(v, (Node, Sym)) or (isinstance(v, dict) and v.get("__record__")):
+            out.append(f"<{getattr(v, 'name', 'value')}>")      # the text of a sample object: opaque, but the string is built
+            continue
+          if part.conversion == ord("r"):
+            v = repr(v)
+          elif part.conversion == ord("s"):
+            v = str(v)
+          spec = self.ev(part.format_spec, env, f, depth) if part.format_spec is not None else ""
+          try:
+            out.append(format(v, spec))
+          except (TypeError, ValueError):
+            raise Raised()
+        else:
+          raise NotConst("f-string part")
+      return "".join(out)
     if isinstance(e, ast.Lambda):
       fi = FuncInfo("<lambda>", f"{f.qualname}.<lambda>", f.module, ast.FunctionDef(name="<lambda>", args=e.args, body=[ast.Return(value=e.body)], decorator_list=[], lineno=e.lineno), f.cls, f)
       return ("closure", fi, env)
@@ -524,6 +544,20 @@ class MiniEval:
         raise NotConst(f"class attribute {e.attr}")
     if isinstance(base, (Fraction, int)) and e.attr in ("numerator", "denominator"):
       return getattr(base, e.attr)
+    if isinstance(base, EnumMember):
+      if e.attr == "name":
+        return base.name
+      if e.attr == "value":
+        if not isinstance(base.value, Sym):
+          return base.value
+        # a member whose value is built by a constructor of the package (NamedColors.x = ColorType(..)): built as a record
+        ci = self.ix.classes.get(base.cls)
+        expr = dict(self.ix.enum_members(ci)).get(base.name) if ci is not None else None
+        anym = next(iter(ci.methods.values()), None) if ci is not None else None
+        ctxf = anym or next((g for g in self.ix.funcs_in(ci.module.name)), None) if ci is not None else None
+        if expr is not None and ctxf is not None:
+          return self.ev(expr, {}, ctxf, depth + 1)
+      raise NotConst(f"attribute {e.attr} of an enum member")
     if isinstance(base, tuple) and hasattr(base, "_fields") and e.attr in base._fields:
       return getattr(base, e.attr)
     if base is None:
@@ -733,6 +767,13 @@ class MiniEval:
       for k, v in zip(fields, args):
         rec[k] = v
       rec.update(kwargs)
+      # declared defaults of the remaining fields
+      for k in fields:
+        if k not in rec and k in callee.assigns:
+          try:
+            rec[k] = self.ce.ev(callee.module, callee.assigns[k], callee)
+          except NotConst:
+            pass
       return rec
     raise NotConst(f"call {unparse(fn)[:50]}")
 
